@@ -1534,6 +1534,7 @@ namespace awkward {
     }
     else {
       bool has_offsets = false;
+      size_t num_with_offsets = 0;
       std::vector<std::shared_ptr<int64_t>> offsetsptrs;
       std::vector<int64_t*> offsetsraws;
       ContentPtrVec contents;
@@ -1544,7 +1545,18 @@ namespace awkward {
         offsetsptrs.push_back(offsets.ptr());
         offsetsraws.push_back(offsets.data());
         contents.push_back(pair.second);
-        has_offsets = (offsets.length() != 0);
+        if (offsets.length() != 0) {
+          num_with_offsets++;
+        }
+      }
+      has_offsets = (num_with_offsets != 0);
+      if (has_offsets  &&  num_with_offsets != contents_.size()) {
+        // the kernels below index every content's offsets
+        throw std::invalid_argument(
+          std::string("cannot flatten a union whose contents are flattened at "
+                      "different levels (a negative axis on contents of "
+                      "different depths); try a non-negative 'axis'")
+          + FILENAME(__LINE__));
       }
 
       if (has_offsets) {
